@@ -90,7 +90,8 @@ C12_OK(cfg, h) == All(C12_Clauses(cfg, Digest(cfg, h)))
 C08P_Clauses(cfg, D) ==
   [ poolBound |-> D.m.maxfl <= NW(cfg),
     \* W tasks that all block do run simultaneously
-    poolUsable |-> ~(\E k \in 1..Len(D.h) : D.h[k].ev = "stuck") ]
+    \* (a pool whose tasks never run at all - no worker - is not usable either)
+    poolUsable |-> ~(\E k \in 1..Len(D.h) : D.h[k].ev \in {"stuck", "hang"}) ]
 
 PoolHits(cfg, D) ==
   [ multiSubmitter |-> cfg.S > 1,
